@@ -57,6 +57,7 @@ var tokTemplates = []tokTemplate{
 	tpl("bittiming", "", `BS_ :`),
 	tpl("bittiming", "", `BS_ : 500 : 1 , 2`),
 	tpl("nodes", "", `BU_ : A B`),
+	tpl("nodes", "", `BU_ : a nodef`), // spelled like attribute names below; once more after them at the end of the list
 	tpl("valuetable", "", `VAL_TABLE_ !T 1 "a" 0 "b" ;`),
 	tpl("message", "", `BO_ !1 M : 8 N`),
 	tpl("message-sg", "", `BO_ !1 M : 8 N NL SG_ S !: 0 | 8 @ 1 + ( 1 , 0 ) [ 0 | 0 ] "" N`),
